@@ -34,6 +34,8 @@ CONSTANTS MaxDp,      \* datapoints ingested by the first process life
           MaxCrash,   \* crashes per behaviour; 2 = a crash during recovery is covered
           Faults,     \* BOOLEAN: one Truncate / FlipByte may hit a log file while the process is down
           LexListing, CrcChecked, FlushBeforeDelete, KeepFlushedBlock, MetaAtomic, StartupIngest,
+          MetaSkipsEmptyBlock, \* FALSE = code as it is: every rewrite of the meta-entry log lists the segment.  TRUE = a rewrite
+                      \* leaves the segment out while its CURRENT in-memory block is empty (e.g. right after a block rotation)
           MaxMeta,    \* rewrites of the meta-entry log
           NpDp        \* datapoints the restarted process ingests during recovery (StartupIngest)
 
@@ -61,18 +63,19 @@ VARIABLES phase,      \* "run" | "down" | "recovering" | "done"
           flushLog,   \* history: set of sequences a rebuilt block was flushed with
           \* ---- meta-entry log
           mfile, mtmp, mpc, mval, mnext, mlogged, mfault, mrecovered,
+          mseg,       \* [ever: a completed rewrite listed the segment, rec: the recovered log lists it]
           \* ---- the restarted process (StartupIngest)
           np          \* [st, nbuf (buffered), unlinked, napp (appended)]
 
 dvars == <<wal, cur, allWals, mem, buf, inflight, pc, next, appended, blockFile, fault>>
 rvars == <<rpc, listing, grp, recBlock, toDelete, replayLog, flushLog>>
-mvars == <<mfile, mtmp, mpc, mval, mnext, mlogged, mfault, mrecovered>>
+mvars == <<mfile, mtmp, mpc, mval, mnext, mlogged, mfault, mrecovered, mseg>>
 vars == <<phase, crashes, dvars, rvars, mvars, np>>
 
 EmptyFile == [ver |-> "none", blocks |-> <<>>]
 NoBlockFile == [st |-> "none", dps |-> <<>>]
 Groups == (0..1) \X (0..MaxBlk)
-MEmpty == [ver |-> "none", len |-> "none", crc |-> "none", pay |-> "none", val |-> 0]
+MEmpty == [ver |-> "none", len |-> "none", crc |-> "none", pay |-> "none", val |-> 0, seg |-> FALSE]
 NoFault == [kind |-> "none", name |-> <<>>, k |-> 0, r |-> "none", at |-> 0]
 NpOff == [st |-> "off", nbuf |-> <<>>, unlinked |-> FALSE, napp |-> <<>>]
 NpName == <<1, 0, 0>>
@@ -85,7 +88,7 @@ Init == /\ phase = "run" /\ crashes = 0
         /\ rpc = "off" /\ listing = <<>> /\ grp = <<>> /\ recBlock = <<>> /\ toDelete = <<>>
         /\ replayLog = {} /\ flushLog = {}
         /\ mfile = [MEmpty EXCEPT !.ver = "ok"] /\ mtmp = MEmpty /\ mpc = "idle" /\ mval = 0 /\ mnext = 1
-        /\ mlogged = 0 /\ mfault = "none" /\ mrecovered = 0
+        /\ mlogged = 0 /\ mfault = "none" /\ mrecovered = 0 /\ mseg = [ever |-> FALSE, rec |-> FALSE]
         /\ np = NpOff
 
 Remove(f, n) == [x \in (DOMAIN f) \ {n} |-> f[x]]
@@ -146,23 +149,26 @@ NextBlockWal == /\ Running /\ Ux /\ pc = "rbdel" /\ allWals = <<>>
 (* ---------------- meta-entry log: timeBasedMetaEntryWalFlush -> Wal.Write ---------------- *)
 Um == UNCHANGED <<phase, crashes, dvars, rvars, np>>
 MTarget == IF MetaAtomic THEN mtmp ELSE mfile
+\* does the list of entries built by timeBasedMetaEntryWalFlush contain the segment?  (mem = the current in-memory block)
+Lists == IF MetaSkipsEmptyBlock THEN mem # <<>> ELSE TRUE
 MSet(f) == IF MetaAtomic THEN mtmp' = f /\ UNCHANGED mfile ELSE mfile' = f /\ UNCHANGED mtmp
 \* ftruncate(0) (+ seek): the previously logged entry is gone from this instant on
 Truncate0 == /\ Running /\ Um /\ mpc = "idle" /\ mnext <= MaxMeta
-             /\ MSet(MEmpty) /\ mval' = mnext /\ mpc' = "ver"
-             /\ UNCHANGED <<mnext, mlogged, mfault, mrecovered>>
+             /\ MSet([MEmpty EXCEPT !.seg = Lists]) /\ mval' = mnext /\ mpc' = "ver"      \* the entries are collected before Wal.Write
+             /\ UNCHANGED <<mnext, mlogged, mfault, mrecovered, mseg>>
 WriteVersion == /\ Running /\ Um /\ mpc = "ver" /\ MSet([MTarget EXCEPT !.ver = "ok"]) /\ mpc' = "len"
-                /\ UNCHANGED <<mval, mnext, mlogged, mfault, mrecovered>>
+                /\ UNCHANGED <<mval, mnext, mlogged, mfault, mrecovered, mseg>>
 \* WriteBlock = the three writes of writeBlockToFile
 WriteBlockLen == /\ Running /\ Um /\ mpc = "len" /\ MSet([MTarget EXCEPT !.len = "ok"]) /\ mpc' = "crc"
-                 /\ UNCHANGED <<mval, mnext, mlogged, mfault, mrecovered>>
+                 /\ UNCHANGED <<mval, mnext, mlogged, mfault, mrecovered, mseg>>
 WriteBlockCrc == /\ Running /\ Um /\ mpc = "crc" /\ MSet([MTarget EXCEPT !.crc = "ok"]) /\ mpc' = "pay"
-                 /\ UNCHANGED <<mval, mnext, mlogged, mfault, mrecovered>>
+                 /\ UNCHANGED <<mval, mnext, mlogged, mfault, mrecovered, mseg>>
 WriteBlockPay == /\ Running /\ Um /\ mpc = "pay" /\ MSet([MTarget EXCEPT !.pay = "ok", !.val = mval])
-                 /\ IF MetaAtomic THEN mpc' = "ren" /\ UNCHANGED <<mnext, mlogged>>
-                    ELSE mpc' = "idle" /\ mlogged' = mval /\ mnext' = mnext + 1
+                 /\ IF MetaAtomic THEN mpc' = "ren" /\ UNCHANGED <<mnext, mlogged, mseg>>
+                    ELSE mpc' = "idle" /\ mlogged' = mval /\ mnext' = mnext + 1 /\ mseg' = [mseg EXCEPT !.ever = @ \/ MTarget.seg]
                  /\ UNCHANGED <<mval, mfault, mrecovered>>
 MetaRename == /\ Running /\ Um /\ mpc = "ren" /\ mfile' = mtmp /\ mlogged' = mval /\ mnext' = mnext + 1 /\ mpc' = "idle"
+              /\ mseg' = [mseg EXCEPT !.ever = @ \/ mtmp.seg]
               /\ UNCHANGED <<mtmp, mval, mfault, mrecovered>>
 MRead(f) == IF f.ver = "ok" /\ f.len = "ok" /\ f.crc = "ok" /\ f.pay = "ok" THEN f.val ELSE 0
 
@@ -174,7 +180,7 @@ Crash == /\ phase \in {"run", "recovering"} /\ crashes < MaxCrash
          /\ rpc' = "off" /\ listing' = <<>> /\ grp' = <<>> /\ recBlock' = <<>> /\ toDelete' = <<>>
          /\ mpc' = "idle" /\ np' = [np EXCEPT !.st = IF @ = "off" THEN "off" ELSE "dead", !.nbuf = <<>>]
          /\ UNCHANGED <<wal, cur, next, appended, blockFile, fault, replayLog, flushLog,
-                        mfile, mtmp, mval, mnext, mlogged, mfault, mrecovered>>
+                        mfile, mtmp, mval, mnext, mlogged, mfault, mrecovered, mseg>>
 
 Regions == {"len", "crc", "pay"}
 CutBlock(b, r) == CASE r = "len" -> [b EXCEPT !.len = "cut", !.crc = "none", !.pay = "none"]
@@ -206,7 +212,7 @@ MCut(f, r) == CASE r = "ver" -> MEmpty
 MetaDamage(kind, r) ==
     /\ phase = "down" /\ Faults /\ mfault = "none" /\ fault.kind = "none" /\ MaxMeta > 0 /\ mfile[r] = "ok"
     /\ mfile' = (IF kind = "flip" THEN [mfile EXCEPT ![r] = "bad"] ELSE MCut(mfile, r)) /\ mfault' = kind
-    /\ UNCHANGED <<phase, crashes, dvars, rvars, mtmp, mpc, mval, mnext, mlogged, mrecovered, np>>
+    /\ UNCHANGED <<phase, crashes, dvars, rvars, mtmp, mpc, mval, mnext, mlogged, mrecovered, mseg, np>>
 
 -----------------------------------------------------------------------------
 (* ---------------- the readers (DPWalIterator.Next until error or nil) ---------------- *)
@@ -281,6 +287,7 @@ DeleteAfterFlush ==
 NoFilesAtAll == /\ Recovering /\ rpc = "file" /\ listing = <<>> /\ rpc' = "meta"
                 /\ UNCHANGED <<phase, crashes, dvars, listing, grp, recBlock, toDelete, replayLog, flushLog, mvars, np>>
 RecoverMeta == /\ Recovering /\ rpc = "meta" /\ mrecovered' = MRead(mfile) /\ rpc' = "done" /\ phase' = "done"
+               /\ mseg' = [mseg EXCEPT !.rec = (MRead(mfile) # 0 /\ mfile.seg)]
                /\ UNCHANGED <<crashes, dvars, listing, grp, recBlock, toDelete, replayLog, flushLog,
                               mfile, mtmp, mpc, mval, mnext, mlogged, mfault, np>>
 
@@ -290,9 +297,9 @@ NpActive == Recovering /\ StartupIngest
 NpStep(st1, st2) == np.st = st1 /\ np' = [np EXCEPT !.st = st2]
 NpFileThere == NpName \in DOMAIN wal /\ ~np.unlinked
 NpInitMeta == /\ NpActive /\ NpStep("off", "mver") /\ mfile' = MEmpty          \* initNewMEntryWAL: O_TRUNC
-              /\ UNCHANGED <<phase, crashes, dvars, rvars, mtmp, mpc, mval, mnext, mlogged, mfault, mrecovered>>
+              /\ UNCHANGED <<phase, crashes, dvars, rvars, mtmp, mpc, mval, mnext, mlogged, mfault, mrecovered, mseg>>
 NpMetaVer == /\ NpActive /\ NpStep("mver", "mk") /\ mfile' = [mfile EXCEPT !.ver = "ok"]
-             /\ UNCHANGED <<phase, crashes, dvars, rvars, mtmp, mpc, mval, mnext, mlogged, mfault, mrecovered>>
+             /\ UNCHANGED <<phase, crashes, dvars, rvars, mtmp, mpc, mval, mnext, mlogged, mfault, mrecovered, mseg>>
 NpCreateWal == /\ NpActive /\ NpStep("mk", "ver") /\ wal' = (NpName :> EmptyFile) @@ wal
                /\ UNCHANGED <<phase, crashes, cur, allWals, mem, buf, inflight, pc, next, appended, blockFile, fault, rvars, mvars>>
 NpWalVer == /\ NpActive /\ NpStep("ver", "idle")
@@ -361,6 +368,10 @@ CompleteReplay == (fault.kind = "none" /\ crashes <= 1) =>
                      \A e \in replayLog : e.name \in OldNames => e.read = Flat(AppendedTo(e.name))
 \* the meta entry whose log write had completed is what recovery reads; nothing else
 MetaDurable == (Done /\ mfault = "none" /\ mlogged # 0) => mrecovered = mlogged
+\* the entry of a segment that has a flushed block and whose entry had been logged is still logged after recovery: a later
+\* rewrite of the whole file must not leave a live segment out (state reached: flushed block, EMPTY current block, rewrite, Crash)
+SegHasFlushedBlock == \E b \in 0..MaxBlk : blockFile[<<0, b>>].st = "ok"
+MetaSegDurable == (Done /\ mfault = "none" /\ mseg.ever /\ SegHasFlushedBlock) => mseg.rec
 MetaNoInvent == mrecovered \in 0..MaxMeta /\ (mfault # "none" => mrecovered \in {0, mlogged})
 \* recovery never deletes the log file the restarted process has open
 NewProcWalIntact == ~np.unlinked
